@@ -80,6 +80,27 @@ fn gen_c06(c: &mut Choices) -> Case {
         if needy && ctx.label != "module" {
             non_module_needy = true;
         }
+        // the same history, but the sole child is a *parameter* of the enclosing function that is
+        // named like the local assigned elsewhere: the captured copy must read the parameter
+        // (declared inside the function body, after the parameters - no TDZ, not the D11 shape)
+        if needy && g.c.chance(1, 8) {
+            g.label("captured-copy-of-a-parameter-named-like-an-assigned-local");
+            items.push(Item::Raw(format!(
+                "function dzp{n}() {{\n  let pz;\n  pz = 1;\n  return pz;\n}}"
+            )));
+            if let Node::El(e) = &mut node {
+                e.children = vec![Child::Expr(Ex::src("pz", Cat::IdentBound))];
+            }
+            // (a `const pz` declared in the body would be the known D11 shape: TDZ)
+            let tpl = match g.c.pick(3) {
+                0 => format!("export const thunk{n} = (pz = x) => @H@;"),
+                1 => format!("export function thunk{n}(pz = y) {{\n  return @H@;\n}}"),
+                _ => format!("export const thunk{n} = (pz = x) => {{\n  return [@H@];\n}};"),
+            };
+            contexts_used.push("parameter-capture");
+            items.push(Item::Site { tpl, node });
+            continue;
+        }
         contexts_used.push(ctx.label);
         items.push(Item::Site {
             tpl: fill(ctx.tpl, n, "@H@"),
@@ -223,6 +244,7 @@ impl Property for C06 {
             "needs-temporary-or-helper",
             "colliding-user-name",
             "captured-copy-armed-by-other-scope-assignment",
+            "captured-copy-of-a-parameter-named-like-an-assigned-local",
         ]
     }
 }
